@@ -358,7 +358,7 @@ static void run_c08(const char* dbname, const ZI* const* registry, uint16_t regs
 // ---------------------------------------------------------------------------------------------------------- C09
 template <typename ZI, typename ZIB, typename PROC>
 static void run_c09_zones(const char* dbname, bool extended, const ZI* const* registry, uint16_t regsize, int zlo, int zhi, unsigned seed) {
-  static const acetime_t special[] = {(acetime_t) 0x80000000, (acetime_t) 0x80000001, -2147400000, -1, 0, 1, 1577923199, 1577923200, 1609459200, 2147483647, 2147400000};
+  static const acetime_t special[] = {(acetime_t) 0x80000000, -2147400000, -1000000000, -1, 0, 1, 1577923199, 1577923200, 1609459200, 2147483647, 2147400000};
   for (int zi = zlo; zi < zhi && zi < (int) regsize; zi++) {
     const ZI* info = registry[zi];
     std::string zname = ZIB(info).name();
